@@ -17,12 +17,12 @@ ASSUMPTIONS = ['inside the documented strictness band |x_i - f| <= 4*tolerance(f
                'right-hand sides do not contain the isolated variable; several relations have left-hand variables that do not feed one another',
                'numpy elementary functions are the maths library of the oracle too (the generated code imports them)']
 CLASSES = {
-    'single': {'quick': 5000, 'thorough': 240000},
-    'multi': {'quick': 1500, 'thorough': 60000},
-    'same_variable': {'quick': 800, 'thorough': 30000},
-    'interleaved': {'quick': 800, 'thorough': 30000},
-    'bounds': {'quick': 700, 'thorough': 30000},
-    'named_collision': {'quick': 60, 'thorough': 1200},
+    'single': {'quick': 15000, 'thorough': 240000},
+    'multi': {'quick': 4500, 'thorough': 60000},
+    'same_variable': {'quick': 2400, 'thorough': 30000},
+    'interleaved': {'quick': 2400, 'thorough': 30000},
+    'bounds': {'quick': 2100, 'thorough': 30000},
+    'named_collision': {'quick': 180, 'thorough': 1200},
 }
 MIN_EVENTS = {'quick': {'assert:rel': 5000, 'assert:frame': 5000, 'assert:bounds': 900, 'interleaved_functions_judged': 1500, 'with_user_locals': 800}}
 CASE_TIMEOUT = 120
